@@ -63,6 +63,8 @@ func runC16(c *Ctx, r *Report) {
 	r.Rule("C16/child-stored", "every command the system transport starts is stored in the transport, where Close finds the process to signal", 1)
 	checkChildStored(c, r, "C16/child-stored")
 	importFoundation(c, r, "C16", "eof-chain")
+	importFoundation(c, r, "C16", "queue")
+	importFoundation(c, r, "C16", "read-loop")
 	r.Rule("C16/orderly-close", "no transport makes its Close abortive (SO_LINGER untouched): bytes accepted by Write reach the peer", 1)
 	checkNoAbortiveClose(c, r, "C16/orderly-close")
 	r.Rule("C16/child-lifetime", "the system transport ties the life of its ssh child to Close only (no SysProcAttr, no CommandContext)", 1)
